@@ -142,6 +142,7 @@ def comp_case(col, rng, cidx, jobref=None):
         par_in = list(params) if use_ellipsis else [p for p in params if rng.random() < 0.6]
         # alias forms
         ambiguous = False
+        rebuilt = []
 
         def alias(i):
             nonlocal ambiguous
@@ -153,6 +154,12 @@ def comp_case(col, rng, cidx, jobref=None):
                 return t
             if r < 0.7 and not any(m.get("tag") == ids[i] for m in sp["nodes"]):
                 return ids[i]
+            if r > 0.85 and "<<" not in ids[i]:
+                # the decorated function object of ANOTHER build of the same source (a re-imported module): it names the first usage
+                if not rebuilt:
+                    rebuilt.append(S.build_tawazi(sp, plain=plain)[1])
+                    col.counters["c19_aliases_given_as_decorated_functions_of_a_second_build"] += 1
+                return rebuilt[0]["c%d" % i]
             return d.get_node_by_id(ids[i])
 
         in_alias = ... if use_ellipsis else [alias(i) for i in ins] + [param_node(sp, p) for p in par_in]
@@ -294,6 +301,15 @@ def comp_case(col, rng, cidx, jobref=None):
 
             names = ["a%d" % q for q in range(len(vals))]
             env_o = {"c_": c}
+            if rng.random() < 0.4 and not ckw.get("is_async"):
+                # ... also when the DAG is composed INSIDE the describing function of the outer DAG
+                def _compose_here():
+                    with warnings.catch_warnings():
+                        warnings.simplefilter("ignore")
+                        return d.compose("cmpin%d_%d" % (cidx, _k), in_alias, out_alias, **ckw)
+
+                env_o = {"c_": lambda *a_: _compose_here()(*a_)}
+                col.counters["c20_dags_composed_inside_a_describing_function"] += 1
             exec("def nest_o%d_%d(%s):\n    return c_(%s)\n" % (cidx, _k, ", ".join(names), ", ".join(names)), env_o)  # noqa: S102
             col.counters["c20_composed_dags_nested_in_an_outer_dag"] += 1
             try:
@@ -303,6 +319,12 @@ def comp_case(col, rng, cidx, jobref=None):
                 if isinstance(e, (KeyboardInterrupt, SystemExit)):
                     raise
                 ro = ("exc", e)
+            composed_inside = "c_" in env_o and env_o["c_"] is not c
+            if composed_inside and (ro[0] != "ok" or not same(ro[1], r[1])):
+                # compose() is compose() wherever it is called from: the same request just succeeded outside a description
+                col.violation(pid, "compose_inside_a_describing_function_differs_from_compose_outside", dict(
+                    outcome=short(ro, 300), direct=short(r[1], 300), inputs=S.jsonable(in_alias if in_alias is not ... else "..."),
+                    outputs=S.jsonable(out_alias), source=S.render(sp)), rp2)
             if ro[0] != "ok":
                 col.violation("C20", "composed_dag_cannot_be_nested_like_it_is_called", dict(
                     exc=repr(ro[1])[:300], inputs=S.jsonable(in_alias if in_alias is not ... else "..."), outputs=S.jsonable(out_alias),
